@@ -36,6 +36,8 @@ History tokens (no blanks inside a token, optional `@n` suffix = opstamp the rea
                                   it takes the batches of A and B only when the commit waits for it
                                   (the harness does not control the worker thread: the real outcome
                                   must be one of the two)
+  `C02 book tok…`              -> `ok` / `dirty`: `bookHist` (delete_all_documents only on a writer object that
+                                  has not committed yet), the extra hypothesis of C02_bookkeeping_refines_history
   `C02 clean tok…`             -> `clean` or `dirty:<i,…>;firstdel:<i,…>` (indices of the calls that violate
                                   a hypothesis of `C02_commit_refines_replay_partial`)
 -/
@@ -325,6 +327,11 @@ def handle : List String → String
     | some ops =>
       let s := replay (ops.map (·.1))
       s!"committed={showNatList (sortNat s.committed)};pending={showNatList (sortNat s.pending)};last={s.lastCommit};payload={showOpt s.payload}"
+  | "book" :: toks =>
+    -- the history-level hypothesis of C02_bookkeeping_refines_history beyond `clean`
+    match toks.mapM parseTok with
+    | none => "bad-op"
+    | some ops => if bookHist false (ops.map (fun o => opToEvent o.1)) then "ok" else "dirty"
   | "clean" :: toks =>
     match toks.mapM parseTok with
     | none => "bad-op"
